@@ -382,7 +382,11 @@ func (c *ctx) methodCase() {
 			v["frm"] = []interface{}{}
 		}
 	}
-	if c.rnd.Intn(8) == 0 { // FPort > 0 without any FRMPayload byte (legal): FOpts of a 1.1 downlink still use the AFCntDown variant
+	if c.rnd.Intn(12) == 0 { // FPort 0 and nothing else (legal: a frame that carries no MAC command at all)
+		v["fport"] = []interface{}{0}
+		v["frm"] = []interface{}{}
+		v["fopts"] = []interface{}{}
+	} else if c.rnd.Intn(8) == 0 { // FPort > 0 without any FRMPayload byte (legal): FOpts of a 1.1 downlink still use the AFCntDown variant
 		v["fport"] = []interface{}{c.pick(1, 10, 223, 224, 255)}
 		v["frm"] = []interface{}{}
 		if len(anyList(v["fopts"])) == 0 {
